@@ -546,6 +546,34 @@ func TestWitnessTwoSourceOperators(t *testing.T) {
 		{"ZipAllTake1", func(a, b Observable[int]) Observable[string] {
 			return Map(func(v []int) string { return fmt.Sprintf("(%d,%d)", v[0], v[1]) })(Take[[]int](1)(ZipAll[int]()(Of(a, b))))
 		}, nil},
+		{"Zip3", func(a, b Observable[int]) Observable[string] {
+			// the further sources are cold and longer than any script: the typed Zip3 then has the definition of Zip2 on a and b
+			return Map(func(v any) string {
+				x, y, _ := v.(interface{ Unpack() (int, int, int) }).Unpack()
+				return fmt.Sprintf("(%d,%d)", x, y)
+			})(ow2Any(Zip3(a, b, Just(0, 1, 2, 3, 4, 5, 6, 7))))
+		}, nil},
+		{"Zip4", func(a, b Observable[int]) Observable[string] {
+			// the further sources are cold and longer than any script: the typed Zip4 then has the definition of Zip2 on a and b
+			return Map(func(v any) string {
+				x, y, _, _ := v.(interface{ Unpack() (int, int, int, int) }).Unpack()
+				return fmt.Sprintf("(%d,%d)", x, y)
+			})(ow2Any(Zip4(a, b, Just(0, 1, 2, 3, 4, 5, 6, 7), Just(0, 1, 2, 3, 4, 5, 6, 7))))
+		}, nil},
+		{"Zip5", func(a, b Observable[int]) Observable[string] {
+			// the further sources are cold and longer than any script: the typed Zip5 then has the definition of Zip2 on a and b
+			return Map(func(v any) string {
+				x, y, _, _, _ := v.(interface{ Unpack() (int, int, int, int, int) }).Unpack()
+				return fmt.Sprintf("(%d,%d)", x, y)
+			})(ow2Any(Zip5(a, b, Just(0, 1, 2, 3, 4, 5, 6, 7), Just(0, 1, 2, 3, 4, 5, 6, 7), Just(0, 1, 2, 3, 4, 5, 6, 7))))
+		}, nil},
+		{"Zip6", func(a, b Observable[int]) Observable[string] {
+			// the further sources are cold and longer than any script: the typed Zip6 then has the definition of Zip2 on a and b
+			return Map(func(v any) string {
+				x, y, _, _, _, _ := v.(interface{ Unpack() (int, int, int, int, int, int) }).Unpack()
+				return fmt.Sprintf("(%d,%d)", x, y)
+			})(ow2Any(Zip6(a, b, Just(0, 1, 2, 3, 4, 5, 6, 7), Just(0, 1, 2, 3, 4, 5, 6, 7), Just(0, 1, 2, 3, 4, 5, 6, 7), Just(0, 1, 2, 3, 4, 5, 6, 7))))
+		}, nil},
 		{"CombineLatest2", func(a, b Observable[int]) Observable[string] {
 			return Map(func(v interface{ Unpack() (int, int) }) string {
 				x, y := v.Unpack()
@@ -692,6 +720,13 @@ func TestWitnessTwoSourceOperators(t *testing.T) {
 					}
 				}
 				sub.Unsubscribe()
+				if a.CountObservers() != 0 || b.CountObservers() != 0 {
+					fails++
+					fmt.Printf("REPLAY-FAIL %s interleaving %v, then Unsubscribe: observers left on a/b: %d/%d\n", o.name, sc, a.CountObservers(), b.CountObservers())
+					if fails >= 3 {
+						t.Fatalf("%d mismatches", fails)
+					}
+				}
 			}
 			if fails > 0 {
 				t.Fatalf("%d mismatches", fails)
